@@ -1,6 +1,6 @@
 (* C03 — precisebank: 18-decimal balances are exact integers fully backed by ukava.
    Property theorems only; proofs are in Proofs/Precisebank.v. *)
-From Kava Require Import Base.Prelude Model.Precisebank Proofs.Precisebank.
+From Kava Require Import Base.Prelude Model.Precisebank Proofs.Precisebank Proofs.PrecisebankFails.
 
 (* Every reachable state satisfies the module invariant: fractional balances and
    remainder in [0,10^12), reserve*10^12 = sum of fractional balances + remainder,
@@ -58,6 +58,18 @@ Theorem C03_reserve_never_short :
   f <> reserve e -> t <> reserve e -> send_ext e s f t x <> Panic.
 Proof. exact send_ext_no_panic. Qed.
 Print Assumptions C03_reserve_never_short.
+
+(* "Fails exactly when bank rules require it": a plain akava transfer between two
+   distinct ordinary parties succeeds if and only if the amount is covered by the
+   sender's spendable extended balance (integer balance minus locked coins, times
+   10^12, plus the fractional balance). *)
+Theorem C03_send_succeeds_iff_spendable :
+  forall e s f t x, env_wf e -> Inv e s -> (f < nacc e)%nat -> (t < nacc e)%nat ->
+  f <> reserve e -> t <> reserve e -> f <> t -> 0 < x ->
+  0 <= lock e f dU <= bal s f dU ->
+  (exists s', send_ext e s f t x = Ok s' tt) <-> x <= spendable_ext e s f.
+Proof. exact send_ext_succeeds_iff. Qed.
+Print Assumptions C03_send_succeeds_iff_spendable.
 
 (* A failed operation leaves no change (transaction discarded). *)
 Theorem C03_failed_changes_nothing :
